@@ -247,6 +247,9 @@ def explore(
                         ok = realize(ok)
                         res["paths_reached_assert"] += 1
                         fp = getattr(ret, "fingerprint", None) if not ok else None
+                        if fp is not None and fp.endswith("harness-step-bound"):
+                            # the harness's own step bound was too small for this path: no verdict (inconclusive), not a finding
+                            raise UnexploredPath("harness step bound: %s" % (getattr(ret, "detail", "")[:160],))
                         if fp is not None and _is_known(fp, known_fps):
                             # a listed known finding: note it (one witness per fingerprint) and keep exploring
                             if fp not in known_seen:
